@@ -350,7 +350,16 @@ def run_impl(sc, timeout=20, keep_objects=False):
     signal.alarm(timeout)
     res = dict(err=None, rows=None, locked=None, marks=[], oracle=[], flags=[])
     try:
-        pt, els = build(sc)
+        try:
+            pt, els = build(sc)
+        except Timeout:
+            raise
+        except Exception as e:  # noqa
+            n = type(e).__name__
+            res['err'] = n if n in EXN else 'Other:' + n
+            res['errmsg'] = 'construction: ' + str(e)[:200]
+            res['build_failed'] = True
+            return res
         res['static'] = static_of(pt, els)
         solver = Solver(pt)
         lim_rules = []
